@@ -1,7 +1,9 @@
 package main
 
 import (
+	"context"
 	"errors"
+	"fmt"
 
 	"github.com/KafScale/platform/pkg/broker"
 	"github.com/KafScale/platform/pkg/protocol"
@@ -106,10 +108,16 @@ func VsymC25_FetchGate() {
 func VsymC25_GateRechecked() {
 	b := vsymNewBroker()
 	b.s3.failUp = func(key string) bool { return len(key) > 0 && containsStr(key, "/t0/0/") }
+	if vsym_Bool("failure-is-a-timeout") {
+		// S3 timeouts surface as errors wrapping context.DeadlineExceeded
+		b.s3.failErr = fmt.Errorf("vsym: s3 put timed out: %w", context.DeadlineExceeded)
+	}
 	tps := []vsymTP{{"t0", 0}, {"t0", 1}, {"t1", 0}}
 	codes := b.vsymProduce(vsymProduceReq(1, tps, vsym_Bytes("payload", 1)))
 	vsym_Reach("rechecked")
 	vsym_Assert(codes[tps[0]] != 0, "C25/failed-upload-not-acknowledged")
+	// the failure, whatever its kind, is part of the health window
+	vsym_Assert(b.h.s3Health.Snapshot().ErrorRate > 0, "C25/every-s3-failure-counts-towards-the-rating")
 	if b.h.s3Health.State() != broker.S3StateHealthy {
 		vsym_Assert(codes[tps[1]] != 0 && codes[tps[2]] != 0, "C25/no-ack-once-rating-turned-bad-mid-request")
 		vsym_Assert(!b.appended(tps[1]) && !b.appended(tps[2]), "C25/nothing-appended-once-rating-turned-bad")
